@@ -41,8 +41,8 @@ type Collector struct {
 }
 
 var (
-	global   = New("global")
-	knownSet map[string]map[string]bool // property -> key -> true
+	global    = New("global")
+	knownSet  map[string]map[string]bool // property -> key -> true
 	knownOnce sync.Once
 )
 
